@@ -89,8 +89,8 @@ type SCplx complex64
 // which sources can be given a leaf of this kind at all (the others are still run: they must not panic)
 func envSupports(kind string) bool {
 	switch kind {
-	case "time", "durs", "structs", "pdurs", "ip":
-		return false
+	case "time", "durs", "structs", "pdurs", "ip", "uptr":
+		return false // (uintptr: the text parser has no such kind; the variable is still supplied, it must not panic)
 	}
 	return true
 }
@@ -230,6 +230,8 @@ func kindType(k string) reflect.Type {
 		return reflect.TypeOf(map[string]SCount(nil))
 	case "knamed":
 		return reflect.TypeOf(map[SName]string(nil))
+	case "uptr":
+		return reflect.TypeOf(uintptr(0))
 	case "ncplx":
 		return reflect.TypeOf(SCplx(0))
 	case "ip":
@@ -355,6 +357,8 @@ func leafValue(kind string, id int) (reflect.Value, string, interface{}) {
 		return reflect.ValueOf(map[string]SCount{fmt.Sprintf("k%d", id): SCount(id)}), fmt.Sprintf(`"k%d":%d`, id, id), map[string]interface{}{fmt.Sprintf("k%d", id): id}
 	case "knamed":
 		return reflect.ValueOf(map[SName]string{SName(fmt.Sprintf("k%d", id)): "v"}), fmt.Sprintf(`"k%d":"v"`, id), map[string]interface{}{fmt.Sprintf("k%d", id): "v"}
+	case "uptr":
+		return reflect.ValueOf(uintptr(4000 + id)), fmt.Sprint(4000 + id), 4000 + id
 	case "ncplx":
 		return reflect.ValueOf(SCplx(complex(float32(id), float32(2)))), fmt.Sprintf("(%d+2i)", id), nil
 	case "ip": // a text-unmarshalable value of slice kind
@@ -681,8 +685,27 @@ func (r *srcRun) runEnv() {
 		}
 	}()
 	r.guard("env", func() {
-		res, err := (&env.Source{Prefix: pfx}).Value(context.Background(), dials.NewType(r.ptyp))
+		src := &env.Source{Prefix: pfx}
+		res, err := src.Value(context.Background(), dials.NewType(r.ptyp))
 		r.judge("env", "C11", res, err, r.c.Garbage != "" || !judged)
+		if r.c.Garbage != "" || !judged || err != nil {
+			return
+		}
+		// the same source asked again after its variables were removed (a reload): no leaf may be set any more
+		for n := range names {
+			os.Unsetenv(n)
+		}
+		res2, err2 := src.Value(context.Background(), dials.NewType(r.ptyp))
+		if err2 != nil {
+			r.add("C11", "env", "second call on the same source, with every variable removed, failed: %v", err2)
+			return
+		}
+		for _, l := range r.c.Expect.Leaves {
+			if fv, set := r.locate(res2, l.ID); set {
+				r.add("C11", "env", "second call on the same source after its variable was removed: leaf %d (%s) is still set to %v", l.ID, l.Kind, fv.Interface())
+				break
+			}
+		}
 	})
 }
 
@@ -761,6 +784,16 @@ func (r *srcRun) runFlags(which string) {
 		}
 		if r.c.Garbage == "" {
 			r.checkAdvertised(which, src)
+		}
+		if r.c.Garbage == "" && r.c.Seed%5 == 2 && !r.c.Expect.Over && !r.c.Expect.Error {
+			// the application parses the flag set itself before dials asks for the value (as a main() using the process's flag
+			// set does): nothing may be applied twice
+			switch fs := src.(type) {
+			case *dflag.Set:
+				fs.Flags.Parse(args)
+			case *dpflag.Set:
+				fs.Flags.Parse(args)
+			}
 		}
 		res, verr := src.Value(context.Background(), dials.NewType(r.ptyp))
 		before := len(r.mis)
@@ -1120,6 +1153,9 @@ func (r *srcRun) runDecoders() {
 				defer func() {
 					if rec := recover(); rec != nil {
 						r.add("C20", name, "a transforming decoder instance used for other config types before: panic: %v", rec)
+						if judged && r.c.Garbage == "" {
+							r.add("C13", name, "a transforming decoder instance used for other config types before: panic: %v", rec)
+						}
 					}
 				}()
 				sh, ok := sharedDecs[name]
@@ -1128,13 +1164,19 @@ func (r *srcRun) runDecoders() {
 					sharedDecs[name] = sh
 				}
 				res2, err2 := (&static.StringSource{Data: docs[name], Decoder: sh}).Value(context.Background(), dials.NewType(r.ptyp))
+				both := func(format string, a ...any) {
+					r.add("C20", name, format, a...)
+					if judged && r.c.Garbage == "" {
+						r.add("C13", name, format, a...) // same data, same config - also when the wrapper has a history
+					}
+				}
 				switch {
 				case (err == nil) != (err2 == nil):
-					r.add("C20", name, "a transforming decoder instance used for other config types before: error %v, a fresh instance: %v", err2, err)
+					both("a transforming decoder instance used for other config types before: error %v, a fresh instance: %v", err2, err)
 				case err == nil && res2.Type() != res.Type():
-					r.add("C20", name, "a transforming decoder instance used for other config types before returns a %s, asked for %s", res2.Type(), res.Type())
+					both("a transforming decoder instance used for other config types before returns a %s, asked for %s", res2.Type(), res.Type())
 				case err == nil && !reflect.DeepEqual(res.Interface(), res2.Interface()):
-					r.add("C20", name, "a transforming decoder instance used for other config types before decodes %q differently from a fresh one", docs[name])
+					both("a transforming decoder instance used for other config types before decodes %q differently from a fresh one", docs[name])
 				}
 			}()
 			if len(r.mis) > before && r.c.Garbage == "" {
